@@ -12,6 +12,7 @@ TRUSTED = [
     'Spec/Locale.v: the grammar ll[_CC][.encoding][@modifier] and the reading of the property text (sources of a language, normalised locale)',
     'hand-written Gallina model Model/Ling.v of lib/ling.py, the -l handling of lib/cli.py and Checker.check_language',
     'Generated/IsoCodes.v (ling._iso_639, ling._iso_3166, ling._name_to_code and the raw [language-codes] section), regenerated from /repo on every run',
+    'tools/gen/gen_ling_src.py + Model/LingPy.v: the fail-closed translator python ast -> Gallina of lib/ling.py (class Language, lookups, parse_language, get_language_for_name) and Checker.check_language (Generated/LingSrc.v, regenerated on every run; rules in its docstring), proved equal to the model (C19_source_tie_*)',
     'extraction (ExtrOcamlBasic only) + ocaml/driver.ml',
     'the `re` engine is modelled (a greedy scanner for _language_regexp), not verified',
     'oracle, not modelled: _munch_language_name (str.split, str.lower, NFD, ASCII folding): the harness passes its value for every looked-up string',
